@@ -33,6 +33,7 @@ Aplus    == PT(RT("a+", One(Q("plus", La))))
 AorB     == PT(RT("a|b", << <<La>>, <<Lb>> >>))
 ClsAB    == PT(RT("[ab]", One(Cls({"a", "b"}))))
 Brace    == PT(RT("b{1,2}", << <<Lb, Q("opt", Lb)>> >>))          \* a value with quantifier braces
+Dollar   == PT(RT("b$a?", << <<Lb, Eol, Q("opt", La)>> >>))       \* a value with `$' followed by a letter
 
 WithInd(l) == IF "ind" \in DOMAIN l THEN l ELSE (l @@ [ind |-> ""])
 
@@ -62,7 +63,10 @@ FilesExc == [
   x2    |-> [dir |-> "exclude", lines |-> << E("bb"), E("a"), E("aab") >>],
   x3    |-> [dir |-> "exclude", lines |-> << >>],
   x4    |-> [dir |-> "exclude", lines |-> << E("ab"), E("ba"), E("bb"), E("a"), E("b"), E("aab") >>],
-  xv    |-> [dir |-> "exclude", lines |-> << SEntry(<<W("a"), PRef("v")>>) >>]
+  xv    |-> [dir |-> "exclude", lines |-> << SEntry(<<W("a"), PRef("v")>>) >>],
+  \* include files whose parser output contains directive lines (block markers)
+  fp    |-> [dir |-> "include", lines |-> << SPrefix(<<W("b")>>), E("ab"), E("a"), SSuffix(<<W("a")>>) >>],
+  fblk  |-> [dir |-> "include", lines |-> << LStart("assemble", ""), E("ae"), LConcat, E("b"), LEnd, E("ba") >>]
 ]
 
 FilesDef == [
@@ -100,11 +104,15 @@ VocExc == << E("b"),
              SInclExc("f2", <<"x1", "x3">>, <<>>),
              SInclExc("f1", <<"x1">>, Pairs1), SInclExc("f1", <<"x2">>, Pairs3), SInclExc("f2", <<"x3">>, Pairs4),
              SInclude("f1", Pairs1), SInclude("f1", Pairs2), SInclude("f1", Pairs3), SInclude("f1", Pairs4),
-             SInclude("f1", Pairs5), SInclude("f2", Pairs3), SInclude("f2", <<>>) >>
+             SInclude("f1", Pairs5), SInclude("f2", Pairs3), SInclude("f2", <<>>),
+             \* keys that are also the ending of a directive line: only entries may be rewritten
+             SInclude("fp", << <<">", "b">> >>), SInclude("fp", << <<"e", "a">>, <<"<", "b">> >>),
+             SInclude("fblk", << <<"e", "b">>, <<">", "a">> >>), SInclExc("fblk", <<"x3">>, << <<"<", "a">>, <<"a", "b">> >>) >>
           \o << LStart("assemble", ""), LEnd, LConcat >>
 
 VocDef == << SDefine("p", <<W("a")>>), SDefine("q", <<PRef("p"), Aplus>>), SDefine("r", <<PRef("q"), Bar, PRef("p")>>),
-             SDefine("s", <<Brace>>), SDefine("p", <<W("bb")>>),
+             SDefine("s", <<Brace>>), SDefine("p", <<W("bb")>>), SDefine("t", <<Dollar>>),
+             SEntry(<<PRef("t")>>), SEntry(<<W("a"), PRef("t")>>),
              SEntry(<<PRef("p")>>), SEntry(<<W("b"), PRef("q")>>), SEntry(<<PRef("r")>>), SEntry(<<PRef("s"), PRef("p")>>),
              SEntry(<<PRef("u"), W("a")>>), E("b"),
              SPrefix(<<PRef("p")>>), SSuffix(<<PRef("s")>>), IncOf("dinc"),
